@@ -162,6 +162,8 @@ def to_iter(ctx, v, by_ref):
             return ListIt([ItemRef(v, i) for i in range(len(v.items))])
         return ListIt(list(v.items))
     if isinstance(v, Adt) and v.ty in ("array", "tuple"):
+        if by_ref:
+            return ListIt([Ref(Box(x)) if not isinstance(x, Ref) else x for x in v.fields])
         return ListIt(list(v.fields))
     if isinstance(v, Adt) and v.ty == "Option":
         return ListIt(list(v.fields))
@@ -918,6 +920,88 @@ def install(P, max_split=4):
             return o
         return NONE
 
+    def opt_slot(r0):
+        """innermost reference to an Option place"""
+        r = r0
+        while isinstance(r.get(), Ref):
+            r = r.get()
+        return r
+
+    @P.summary("Option::get_or_insert", "Option::get_or_insert_with", "Option::get_or_insert_default", "Option::insert")
+    def _goi(ctx, c):
+        r = opt_slot(c.args[0])
+        o = r.get()
+        if o.variant == "None" or c.key.endswith("::insert"):
+            if c.key.endswith("_with"):
+                v = callv(ctx, c.args[1], [])
+            elif c.key.endswith("_default"):
+                v = default_of(ctx, c.resolve((c.callee.split("Option::<", 1)[1].rsplit(">::", 1)[0]) if "Option::<" in c.callee else ""))
+            else:
+                v = c.args[1]
+            r.set(Some(v))
+        return Ref(r.box, r.proj + (0,))
+
+    @P.summary("Option::replace")
+    def _oreplace(ctx, c):
+        r = opt_slot(c.args[0])
+        old = r.get()
+        r.set(Some(c.args[1]))
+        return old
+
+    @P.summary("Option::and")
+    def _oand(ctx, c):
+        o = deref(c.args[0])
+        return c.args[1] if o.variant == "Some" else NONE
+
+    @P.summary("Option::xor")
+    def _oxor(ctx, c):
+        a, b = deref(c.args[0]), deref(c.args[1])
+        if (a.variant == "Some") != (b.variant == "Some"):
+            return a if a.variant == "Some" else b
+        return NONE
+
+    @P.summary("Option::zip")
+    def _ozip(ctx, c):
+        a, b = deref(c.args[0]), deref(c.args[1])
+        if a.variant == "Some" and b.variant == "Some":
+            return Some(Adt("tuple", None, [a.fields[0], b.fields[0]]))
+        return NONE
+
+    @P.summary("Option::iter", "Option::into_iter", "Result::iter")
+    def _oiter(ctx, c):
+        o = deref(c.args[0])
+        return ListIt(list(o.fields) if o.variant in ("Some", "Ok") else [])
+
+    @P.summary("Option::inspect", "Result::inspect", "Result::inspect_err")
+    def _oinspect(ctx, c):
+        o = deref(c.args[0])
+        hit = o.variant in (("Err",) if c.key.endswith("_err") else ("Some", "Ok"))
+        if hit:
+            callv(ctx, c.args[1], [Ref(Box(o.fields[0]))])
+        return o
+
+    @P.summary("Result::and")
+    def _rand(ctx, c):
+        r = deref(c.args[0])
+        return c.args[1] if r.variant == "Ok" else r
+
+    @P.summary("Result::or")
+    def _ror(ctx, c):
+        r = deref(c.args[0])
+        return r if r.variant == "Ok" else c.args[1]
+
+    @P.summary("Option::then", "bool::then")
+    def _then(ctx, c):
+        b = deref(c.args[0])
+        if ctx.branch(b, "bool-then"):
+            return Some(callv(ctx, c.args[1], []))
+        return NONE
+
+    @P.summary("bool::then_some")
+    def _then_some(ctx, c):
+        b = deref(c.args[0])
+        return Some(c.args[1]) if ctx.branch(b, "bool-then-some") else NONE
+
     @P.summary("Option::transpose")
     def _otranspose(ctx, c):
         o = deref(c.args[0])
@@ -942,6 +1026,8 @@ def install(P, max_split=4):
             return VecV([])
         if t in ("bool",):
             return False
+        if t == "()":
+            return UNIT
         if re.sub(r".*::", "", t) in ("String", "OsString", "PathBuf"):
             return ""
         if t in INT_TYS:
@@ -960,7 +1046,7 @@ def install(P, max_split=4):
 
     @P.summary("Default::default")
     def _default(ctx, c):
-        return default_of(ctx, c.selfty or "")
+        return default_of(ctx, c.resolve(c.selfty or ""))
 
     @P.summary("Try::branch")
     def _branch(ctx, c):
